@@ -49,9 +49,19 @@ PROPS = {
         assumptions=[GO_RUNTIME, "metadata within the format's bounds (<= 65535 entries, keys <= 255 bytes, values <= 65535 bytes); beyond them the length fields truncate (known finding C08/metadata-length-truncation)",
                      "real memory consumption is not measured; the bound is proved on the model's allocation counts"],
     ),
+    "C09": dict(
+        module="Anndb.Props.C09",
+        engines=[dict(name="cluster", quick=["only=search", "searches=6"], thorough=["only=search", "searches=60"])],
+        trusted=["Go channels: FIFO, buffered sends below capacity do not block, select picks any ready case (the LTS allows every choice); sync.WaitGroup",
+                 "shape facts Generated.search* read from Dataset.Search / SearchPartitions / searchPartition / searchPartitionsOnNode",
+                 "sort.Sort sorts (its result is a permutation in ascending Less order); which of several equal-score items survives the cut is not fixed",
+                 "in-memory search clients deliver handler errors on Recv as gRPC does"],
+        assumptions=[GO_RUNTIME, "nodes fail by error / timeout, not by returning malformed ids (the uuid.FromBytes error branch of searchPartitionsOnNode sends without returning; outside the fault model, recorded in DESIGN.md)",
+                     "the context is not cancelled by the caller during the search"],
+    ),
     "C10": dict(
         module="Anndb.Props.C10",
-        engines=[dict(name="routing")],
+        engines=[dict(name="routing"), dict(name="cluster", quick=["only=writes", "writes=8"], thorough=["only=writes", "writes=150"])],
         trusted=["goextract's expression translator for utils.UuidMod (tied to the model by `rfl`) and its call-site facts",
                  "encoding/binary.LittleEndian.Uint64 reads 8 bytes little-endian (model: Routing.le64, compared on every differential case)"],
         assumptions=[GO_RUNTIME, "partition count 0 is excluded (division by zero; validation is C12's subject)"],
